@@ -15,7 +15,8 @@ MANIFEST = dict(
          "for early terminators anywhere in a chain. That the model applies to an operator is the regenerated SubscribeShape fact (does not block in Subscribe; no upstream subscription dropped; a teardown is returned), "
          "decided by the kernel on every run (table_ok, waiting_rows). Tie: every catalogue operator and random chains over hot probes with early terminators and external cuts at every position: "
          "probe teardown counter and closed flag equal the model. Known findings: the waiting class (ConcatAll, Retry, RepeatWith, DoWhile/While, OnErrorResumeNextWith, SubscribeOn, Timer) blocks inside Subscribe."
-         ' The predicate fin-missing of the kernel runs (a teardown whose Add returned on a disposed subscription has run) is read by C14; kind=cancel adds higher-order operators whose inner source emits synchronously and stays open (FlatMapInnerOpen / MergeMapInnerOpen), ToChannel whose downstream ends before its upstream subscription exists (take1 / unsub0) and a silent never-ending source.',
+         ' The predicate fin-missing of the kernel runs (a teardown whose Add returned on a disposed subscription has run) is read by C14; kind=cancel adds higher-order operators whose inner source emits synchronously and stays open (FlatMapInnerOpen / MergeMapInnerOpen), ToChannel whose downstream ends before its upstream subscription exists (take1 / unsub0) and a silent never-ending source.'
+         " term=ctx: the library's context-aware sources (Interval, IntervalWithInitial with a zero and a positive initial delay, RangeWithInterval, alone and below a chain) end and fall silent when the subscription context is cancelled.",
     technique="Lean 4 proof (run invariant: downstream closed => upstream released) + kernel-decided SubscribeShape table regenerated from source + differential correspondence of release/closed flags",
     ref='5/C14')
 
